@@ -148,6 +148,8 @@ func (lc *LocalClient) MatchingVersions(ctx context.Context, vk VersionKey) ([]V
 	if !ok {
 		return nil, fmt.Errorf("version: %v: %w", vk, ErrNotFound)
 	}
-	ms := MatchRequirement(vk, vs)
+	// MatchRequirement may reorder its argument; work on a copy so that
+	// concurrent readers never see the internal slice change.
+	ms := MatchRequirement(vk, append([]Version(nil), vs...))
 	return ms, nil
 }
